@@ -45,6 +45,16 @@ def file_events(path: str, tail_head: int, tail_last: int, zone_mod: int, phase:
     from pyoda_time.time_zones.io._tzdb_stream_field import _TzdbStreamField
 
     raw = open(path, "rb").read()
+    # a provider over the OTHER real file exists in the same process and has served every id first: what this file's provider
+    # (and the built-in one) serve afterwards is still this file's data
+    try:
+        others = [str(REPO / f) for f in FILES if not path.endswith(f)]
+        for op_ in others:
+            oprov = DateTimeZoneCache(TzdbDateTimeZoneSource.from_stream(io.BytesIO(open(op_, "rb").read())))
+            for oid in list(oprov.ids):
+                oprov[oid]
+    except Exception:  # noqa: BLE001 - the other file's own run reports its problems
+        pass
     source = TzdbDateTimeZoneSource.from_stream(io.BytesIO(raw))
     provider = DateTimeZoneCache(source)
     builtin = path.endswith("time_zones/Tzdb.nzd")
